@@ -182,6 +182,18 @@ inline void dump(World &w, long i, const char *mode, HyperedgeTreeNode *anchor) 
     fflush(stdout);
 }
 
+// `HyperedgeTreeNode::listJunctionsAndConnectors(nullptr, …)` from `anchor`, for the driver to compare with
+// the model's `listNode` on the very same state
+inline void dumpList(World &w, long i, HyperedgeTreeNode *anchor) {
+    JunctionRefList js; ConnRefList cs;
+    anchor->listJunctionsAndConnectors(nullptr, js, cs);
+    printf("hlist %ld J", i);
+    for (JunctionRef *j : js) printf(" %ld", w.idOf(j));
+    printf(" C");
+    for (ConnRef *c : cs) printf(" %s", opt(w.idOf(c)).c_str());
+    printf("\n");
+}
+
 inline void freeAll(World &w) {
     for (HyperedgeTreeEdge *e : w.edges) delete e;
     for (HyperedgeTreeNode *n : w.nodes) delete n;
@@ -358,6 +370,7 @@ inline void caseRewrites(vh::Rng &r, bool thorough, int flavour) {
                 anchor = node;               // `self` of a call that starts at a junction survives
                 rediscover(w, anchor);
                 dump(w, i, "dfs", anchor);
+                dumpList(w, i, anchor);
             }
         }
         // --- junction moves: the caller's loop, junction by junction in id order
@@ -381,6 +394,7 @@ inline void caseRewrites(vh::Rng &r, bool thorough, int flavour) {
                     rediscover(w, anchor);
                     printf("hret %d %s %d\n", i, opt(res ? w.idOf(res) : -1).c_str(), (int) changed);
                     dump(w, i, "dfs", anchor);
+                    dumpList(w, i, anchor);
                     if (changed) {
                         // new junctions join the work list (the library restarts its map iteration)
                         for (auto &p : jm) {
